@@ -23,7 +23,7 @@ import common
 from impl import builder, project
 from impl.project import F  # noqa: F401  (same arithmetic as Driver.bodyF)
 
-KINDS = {"f": ("f*.txt", 0, 5), "g": ("g*.txt", 5, 5), "all": ("*.txt", 0, 10)}
+KINDS = {"f": ("f*.txt", 0, 5), "g": ("g*.txt", 5, 5), "all": ("*.txt", 0, 12)}     # offsets 10, 11 are the dot-files .h0.txt, .h1.txt
 KIND_IDX = {"f": 0, "g": 1, "all": 2}
 PAT_NODE0 = 500000
 SRC_NODE = 9000
@@ -31,11 +31,17 @@ SRC_NODE = 9000
 RT = r'''
 """runtime helper imported by generated C18 task modules (not a task module itself)"""
 import os
+import re
 from pathlib import Path
 M61 = 2305843009213693951
 ROOT = Path(__file__).resolve().parent
 LOG = ROOT / ".verif_log"
-D = ROOT / "data"
+DATANAME = "data"
+DIRNAMES = {}
+D = ROOT / DATANAME
+
+def fname(o):
+    return f"f{o}.txt" if o < 5 else (f"g{o - 5}.txt" if o < 10 else f".h{o - 10}.txt")
 
 def log(line):
     with open(LOG, "a") as f:
@@ -49,15 +55,17 @@ def F(t, i, src, ds):
 
 def nid(p):
     p = Path(p)
-    if p.parent.name.startswith("d") and p.parent.parent == D:
-        d = int(p.parent.name[1:]); k = int(p.stem[1:])
-        return 1000 + 20 * d + (k if p.stem[0] == "f" else 5 + k)
+    m = re.match(r"d(\d+)", p.parent.name)
+    if m and p.parent.parent == D:
+        d = int(m.group(1)); nm = p.name
+        k = int(nm.lstrip(".")[1])
+        return 1000 + 20 * d + (k if nm[0] == "f" else 5 + k if nm[0] == "g" else 10 + k)
     return int(p.stem[1:])
 
 def npath(n):
     if 1000 <= n < 2000:
         d, o = divmod(n - 1000, 20)
-        return D / f"d{d}" / (f"f{o}.txt" if o < 5 else f"g{o - 5}.txt")
+        return D / DIRNAMES.get(d, f"d{d}") / fname(o)
     return D / f"n{n}.txt"
 
 def fmt(ls):
@@ -149,11 +157,30 @@ def pat_node(pid) -> int:
     return PAT_NODE0 + int(pid)
 
 
-def npath(root: Path, n: int) -> Path:
+def data_name(spec=None) -> str:
+    """name of the directory holding all node files (may contain glob metacharacters: it is a literal directory name)"""
+    return (spec or {}).get("dataname") or "data"
+
+
+def dir_name(spec, d) -> str:
+    """name of pattern directory d: `d<d>` plus an optional suffix with glob metacharacters"""
+    return ((spec or {}).get("dirnames") or {}).get(str(d)) or f"d{d}"
+
+
+def file_name(o: int) -> str:
+    return f"f{o}.txt" if o < 5 else (f"g{o - 5}.txt" if o < 10 else f".h{o - 10}.txt")
+
+
+def npath(root: Path, n: int, spec=None) -> Path:
     if 1000 <= n < 2000:
         d, o = divmod(n - 1000, 20)
-        return root / "data" / f"d{d}" / (f"f{o}.txt" if o < 5 else f"g{o - 5}.txt")
-    return root / "data" / f"n{n}.txt"
+        return root / data_name(spec) / dir_name(spec, d) / file_name(o)
+    return root / data_name(spec) / f"n{n}.txt"
+
+
+def runtime_text(spec) -> str:
+    names = {int(d): nm for d, nm in ((spec or {}).get("dirnames") or {}).items()}
+    return RT.replace('DATANAME = "data"', f"DATANAME = {data_name(spec)!r}").replace("DIRNAMES = {}", f"DIRNAMES = {names!r}")
 
 
 def tname(t: int) -> str:
@@ -177,11 +204,17 @@ def _dirnode(spec, pid, name=None) -> str:
     """`name` = a custom `name=` of the DirectoryNode (a label: the node's identity is (root_dir, pattern) only)."""
     p = pat_of(spec, pid)
     nm = f"name={name!r}, " if name else ""
-    return f"DirectoryNode({nm}root_dir=D / 'd{p['dir']}', pattern={geom(p)[0]!r})"
+    return f"DirectoryNode({nm}root_dir=D / {dir_name(spec, p['dir'])!r}, pattern={geom(p)[0]!r})"
 
 
 def after_idents(t):
+    """idents of an after-EXPRESSION (string form)"""
     return list(t.get("after") or [])
+
+
+def after_tasks(t):
+    """ids of static tasks named by the function / list form `after=task_x` / `after=[task_x, task_y]`"""
+    return list(t.get("after_tasks") or [])
 
 
 def after_ids(spec, t):
@@ -189,11 +222,11 @@ def after_ids(spec, t):
     `@task(after="<ident> or <ident> …")` is a substring of (KeywordMatcher: case-insensitive substring of the task name)."""
     idents = after_idents(t)
     if not idents:
-        return []
+        return sorted(set(after_tasks(t)) - {t["id"]})
     cand = {u["id"] for u in spec["tasks"]}
     for g, base in spec.get("perfile", {}).items():
         cand.update(int(base) + n for n in range(1000, 1000 + 20 * 4))
-    return sorted(c for c in cand if c != t["id"] and any(i.lower() in tname(c) for i in idents))
+    return sorted({c for c in cand if c != t["id"] and any(i.lower() in tname(c) for i in idents)} | (set(after_tasks(t)) - {t["id"]}))
 
 
 def _render_task(spec, t, ind: str, kid: bool) -> list[str]:
@@ -210,7 +243,7 @@ def _render_task(spec, t, ind: str, kid: bool) -> list[str]:
         _, lo, ln = geom(p)
         if ret_style:
             ret_ann = f"Annotated[None, {_dirnode(spec, pid, dn(j, 'p'))}]"
-            pp_args.append(f"(D / 'd{p['dir']}', {lo}, {ln})")
+            pp_args.append(f"(D / {dir_name(spec, p['dir'])!r}, {lo}, {ln})")
         else:
             nodef.append(f"pp{j}: Annotated[Path, {_dirnode(spec, pid, dn(j, 'p'))}, Product]")
             pp_args.append(f"(pp{j}, {lo}, {ln})")
@@ -220,7 +253,7 @@ def _render_task(spec, t, ind: str, kid: bool) -> list[str]:
             nodef.append(f"q{j}: Annotated[list, {_dirnode(spec, pid, dn(j, 'q'))}]")
         else:
             params.append(f"q{j}={_dirnode(spec, pid, dn(j, 'q'))}")
-        pd_args.append(f"(q{j}, D / 'd{p['dir']}', {geom(p)[0]!r})")
+        pd_args.append(f"(q{j}, D / {dir_name(spec, p['dir'])!r}, {geom(p)[0]!r})")
     cnt = "None"
     if t.get("cnt") is not None:
         params.append(f"cnt: Path = D / 'n{t['cnt']}.txt'")
@@ -246,6 +279,11 @@ def _render_task(spec, t, ind: str, kid: bool) -> list[str]:
         deco.append("is_generator=True")
     if after_idents(t):
         deco.append("after=" + repr(" or ".join(after_idents(t))))
+    elif after_tasks(t):
+        at = after_tasks(t)
+        deco.append("after=" + (tname(at[0]) if len(at) == 1 and t.get("after_style") != "list" else "[" + ", ".join(tname(a) for a in at) + "]"))
+    if t.get("try_first"):
+        L.append(f"{ind}@pytask.mark.try_first")
     if deco:
         L.append(f"{ind}@task({', '.join(deco)})")
     fname = f"_k{t['id']}" if kid else tname(t["id"])
@@ -281,7 +319,7 @@ def render_module(spec, src_value=None) -> str:
         "import pytask",
         "from pytask import DirectoryNode, Product, task",
         "import _verif_prt as rt",
-        "D = Path(__file__).resolve().parent / 'data'",
+        f"D = Path(__file__).resolve().parent / {data_name(spec)!r}",
         f"SRC = {module_content(spec) if src_value is None else src_value}",
         "def rt_tname(t):",
         "    return 'task_t%02dx' % t",
@@ -301,11 +339,11 @@ def module_content(spec) -> int:
 def materialise(root: Path, spec, clock):
     root.mkdir(parents=True, exist_ok=True)
     (root / "pyproject.toml").write_text("[tool.pytask.ini_options]\n")
-    (root / "_verif_prt.py").write_text(RT)
-    (root / "data").mkdir(exist_ok=True)
+    (root / "_verif_prt.py").write_text(runtime_text(spec))
+    (root / data_name(spec)).mkdir(exist_ok=True)
     project.write_file(root / "task_m0.py", render_module(spec), clock)
     for n, c in spec.get("inputs", {}).items():
-        project.write_file(npath(root, int(n)), str(c), clock)
+        project.write_file(npath(root, int(n), spec), str(c), clock)
 
 
 def all_nodes(spec, extra=()):
@@ -325,19 +363,20 @@ def snapshot(root: Path, spec):
     """contents of every modelled file that exists (static nodes, pattern intervals, copy products)."""
     out = {}
     cand = set(all_nodes(spec))
-    for p in (root / "data").glob("n*.txt"):
-        try:
-            cand.add(int(p.stem[1:]))
-        except ValueError:
-            pass
-    for p in (root / "data").glob("d*/[fg]?.txt"):
-        try:
-            d, k = int(p.parent.name[1:]), int(p.stem[1:])
-            cand.add(1000 + 20 * d + (k if p.stem[0] == "f" else 5 + k))
-        except ValueError:
-            pass
+    import re
+    data = root / data_name(spec)
+    for p in data.iterdir():
+        m = re.fullmatch(r"n(\d+)\.txt", p.name)
+        if m:
+            cand.add(int(m.group(1)))
+        md = re.match(r"d(\d+)", p.name)
+        if md and p.is_dir():
+            for q in p.iterdir():
+                mf = re.fullmatch(r"(f|g|\.h)(\d)\.txt", q.name)
+                if mf:
+                    cand.add(1000 + 20 * int(md.group(1)) + {"f": 0, "g": 5, ".h": 10}[mf.group(1)] + int(mf.group(2)))
     for n in sorted(cand):
-        p = npath(root, n)
+        p = npath(root, n, spec)
         try:
             out[n] = int(p.read_text())
         except FileNotFoundError:
@@ -563,13 +602,13 @@ def run_history(server, hist, keep=False):
                     records.append(rec)
                     break
             elif kind == "write":
-                project.write_file(npath(root, step[1]), str(step[2]), clock)
+                project.write_file(npath(root, step[1], spec), str(step[2]), clock)
             elif kind == "touch":
-                p = npath(root, step[1])
+                p = npath(root, step[1], spec)
                 if p.exists():
                     project.write_file(p, p.read_text(), clock)
             elif kind == "delete":
-                npath(root, step[1]).unlink(missing_ok=True)
+                npath(root, step[1], spec).unlink(missing_ok=True)
             else:
                 raise ValueError(kind)
             records.append(rec)
@@ -679,24 +718,46 @@ def gen_spec(rng, *, overlap_p=0.08, fail_p=0.06):
     for t in tasks:
         if (t["pdeps"] or t["pprods"]) and rng.random() < 0.3:
             t["dname"] = True
-    # a task ordered by an after-EXPRESSION: it matches static tasks and / or tasks that a generator defines during the build
-    if rng.random() < 0.45:
-        idents = []
-        for g in [t for t in tasks if t["gen"]]:
-            if str(g["id"]) in perfile and rng.random() < 0.8:
-                idents.append(f"task_t{(perfile[str(g['id'])] + 1000) // 100}")      # all copy tasks of that generator
-            for k in [u for u in tasks if u.get("parent") == g["id"] and u["prods"]]:
-                if rng.random() < 0.6:
-                    idents.append(tname(k["id"]))
-        for c in [t for t in tasks if t.get("parent") is None and t["prods"] and not t["gen"]]:
-            if rng.random() < 0.25:
-                idents.append(tname(c["id"]))
-        if idents:
+    # a task ordered ONLY by `after=` — expression (matching static tasks and / or tasks a generator defines during the build),
+    # function or list form; its targets include tasks whose only product is a directory pattern; it does not depend on the pattern
+    if rng.random() < 0.55:
+        style = rng.choice(["expr", "expr", "func", "list"])
+        statics = [t for t in tasks if t.get("parent") is None and not t["gen"] and (t["prods"] or t["pprods"])]
+        producers = [t for t in statics if t["pprods"] and not t["prods"]]
+        idents, targets = [], []
+        if style == "expr":
+            for g in [t for t in tasks if t["gen"]]:
+                if str(g["id"]) in perfile and rng.random() < 0.8:
+                    idents.append(f"task_t{(perfile[str(g['id'])] + 1000) // 100}")      # all copy tasks of that generator
+                for k in [u for u in tasks if u.get("parent") == g["id"] and u["prods"]]:
+                    if rng.random() < 0.6:
+                        idents.append(tname(k["id"]))
+            for c in statics:
+                if rng.random() < (0.5 if c in producers else 0.2):
+                    idents.append(tname(c["id"]))
+            rng.shuffle(idents)
+            idents = idents[:3]
+        elif statics:
+            pool = producers if producers and rng.random() < 0.7 else statics
+            targets = sorted({u["id"] for u in rng.sample(pool, 1 if style == "func" else min(len(pool), rng.randint(1, 2)))})
+        if idents or targets:
             cons_prods = [p for t in tasks for p in t["prods"] if t["pdeps"] and t.get("parent") is None]
-            tasks.append({"id": new_tid(), "cnt": None, "deps": [rng.choice(cons_prods)] if cons_prods and rng.random() < 0.6 else [],
-                          "pdeps": [], "prods": [new_node()], "pprods": [], "gen": False, "fails": False, "parent": None,
-                          "pstyle": "param", "dstyle": "default", "after": idents[:3]})
-    return {"pats": pats, "tasks": tasks, "perfile": perfile, "inputs": inputs, "version": 0}
+            x = {"id": new_tid(), "cnt": None, "deps": [rng.choice(cons_prods)] if cons_prods and rng.random() < 0.4 else [],
+                 "pdeps": [], "prods": [new_node()], "pprods": [], "gen": False, "fails": False, "parent": None,
+                 "pstyle": "param", "dstyle": "default", "try_first": rng.random() < 0.5}
+            if idents:
+                x["after"] = idents
+            else:
+                x["after_tasks"], x["after_style"] = targets, style
+            tasks.append(x)
+    spec = {"pats": pats, "tasks": tasks, "perfile": perfile, "inputs": inputs, "version": 0}
+    # directory names with glob metacharacters (literal names: DirectoryNode globs the pattern below root_dir only)
+    names = {str(d): f"d{d}" + rng.choice(["[x]", "[ab]", " q?", "*", "[!a]b"]) for d in range(ndirs) if rng.random() < 0.3}
+    if names:
+        spec["dirnames"] = names
+    if rng.random() < 0.12:
+        spec["dataname"] = rng.choice(["data[1]", "da*ta", "data?"])
+    return spec
 
 
 def gen_steps(rng, spec, rounds=(2, 5)):
@@ -712,7 +773,7 @@ def gen_steps(rng, spec, rounds=(2, 5)):
     others = [int(n) for n in spec["inputs"] if int(n) not in cnts]
     ranges = sorted({n for pid in spec["pats"] for n in pat_range(spec, pid)})
     dirs = sorted({p["dir"] for p in spec["pats"].values()})
-    allfiles = [1000 + 20 * d + o for d in dirs for o in range(10)]
+    allfiles = [1000 + 20 * d + o for d in dirs for o in list(range(10)) + [10, 10, 11]]
     for _ in range(rng.randint(*rounds)):
         r = rng.random()
         edits = []
